@@ -60,6 +60,11 @@ def rows_of(func, pnode, many):
                     a = n.args[0]
                     gens = _enclosing_for_gens(n, fn)
                     rows.extend(_row_of_elem(func, a, gens, n))
+                elif isinstance(n, ast.Call) and isinstance(n.func, ast.Attribute) and isinstance(n.func.value, ast.Name) \
+                        and n.func.value.id == e.id and n.func.attr == 'extend' and n.args \
+                        and isinstance(n.args[0], (ast.ListComp, ast.GeneratorExp)):
+                    comp = n.args[0]
+                    rows.extend(_row_of_elem(func, comp.elt, _enclosing_for_gens(n, fn) + _gens_of_comp(comp), n))
         if not rows:
             kinds = [s[0] for s in binding_sites(fn, e.id)]
             return [Row(opaque=f'{e.id} ({",".join(kinds) or "unbound"})', node=e)]
@@ -90,8 +95,75 @@ def _rows_of_value(func, v, many, at):
     return _row_of_elem(func, v, _enclosing_for_gens(at, fn), at)
 
 
-def _row_of_elem(func, a, gens, node):
+def _row_via_helper(func, a, gens, node):
+    """`a` is a call to a module-level helper that builds and returns one row (a dict copied from a parameter plus stores, or
+    a tuple): the row is described in the helper and its parameters are replaced by the caller's arguments."""
+    from .inline import clone
+    h = func.module.funcs.get(a.func.id) if isinstance(a.func, ast.Name) else None
+    if h is None or h is func or h.cls is not None or '.' in h.qualname:
+        return None
+    rets = [n for n in walk_no_nested(h.node) if isinstance(n, ast.Return)]
+    if len(rets) != 1 or rets[0].value is None or h.node.body[-1] is not rets[0]:
+        return None
+    if any(isinstance(x, ast.Starred) for x in a.args) or any(k.arg is None for k in a.keywords):
+        return None
+    params = h.params
+    bound = dict(zip(params, a.args))
+    for k in a.keywords:
+        bound[k.arg] = k.value
+    inner = _row_of_elem(h, rets[0].value, [], rets[0], _depth=1)
+    if len(inner) != 1 or inner[0].opaque or inner[0].gens:
+        return None
+
+    def to_caller(v):
+        if v is None or not isinstance(v, ast.AST):
+            return v
+        if isinstance(v, ast.Name) and v.id in bound:
+            return bound[v.id]
+        names = {x.id for x in ast.walk(v) if isinstance(x, ast.Name)}
+        if not (names & set(params)):
+            return v
+        if not names & set(params) <= set(bound):
+            return None
+
+        class S(ast.NodeTransformer):
+            def visit_Name(self, n):
+                if n.id in bound:
+                    return clone(bound[n.id])
+                return n
+        new = S().visit(clone(v))
+        ast.copy_location(new, a)
+        ast.fix_missing_locations(new)
+        for par in ast.walk(new):
+            for ch in ast.iter_child_nodes(par):
+                ch._parent = par
+        new._parent = a
+        return new
+    r = inner[0]
+    if r.named is not None:
+        named = {}
+        for k, v in r.named.items():
+            if k == '*defaults':
+                named[k] = {dk: to_caller(dv) for dk, dv in (v or {}).items()}
+            else:
+                named[k] = to_caller(v)
+                if named[k] is None and v is not None:
+                    return None
+        return [Row(named=named, gens=gens, node=node)]
+    if r.elts is not None:
+        elts = [to_caller(x) for x in r.elts]
+        if any(x is None for x in elts):
+            return None
+        return [Row(elts=elts, gens=gens, node=node)]
+    return None
+
+
+def _row_of_elem(func, a, gens, node, _depth=0):
     fn = func.node
+    if isinstance(a, ast.Call) and isinstance(a.func, ast.Name) and _depth == 0 and a.func.id not in ('dict', 'tuple', 'list'):
+        via = _row_via_helper(func, a, gens, node)
+        if via is not None:
+            return via
     if isinstance(a, (ast.Tuple, ast.List)):
         if any(isinstance(x, ast.Starred) for x in a.elts):
             return [Row(elts=list(a.elts), gens=gens, node=node)]
@@ -423,6 +495,11 @@ def flow_sources(func, name, row, depth=0):
         if elems is None:
             return None
         for el in elems:
+            if isinstance(el, ast.Name) and idx is not None:
+                # the element was bound to a temporary first:  row = (a, b, c); rows.append(row)
+                asg = [b_ for b_ in binding_sites(func.node, el.id) if b_[0] == 'assign']
+                if len(asg) == 1 and isinstance(asg[0][1], (ast.Tuple, ast.List)):
+                    el = asg[0][1]
             if idx is None:
                 out.append(el)
             elif isinstance(el, (ast.Tuple, ast.List)) and idx < len(el.elts):
